@@ -905,7 +905,11 @@ unary_fns: dict[str, UnaryCallable] = {
 def binary_e_fn(
     x: Union[int, float], y: Union[int, float]
 ) -> Union[int, float]:
-    if isinstance(x, int) and isinstance(y, int):
+    if x == 0:
+        return 0  # (the division loop below would never end)
+    # Exact integer arithmetic only while the result is within the range of
+    # a float: the loops below run abs(y) times
+    if isinstance(x, int) and isinstance(y, int) and abs(y) <= 400:
         if y >= 0:
             for i in range(y):
                 x = x * 10
